@@ -83,6 +83,8 @@ var expectStream = map[string]string{
 	"ReadN": `{ if n <= 0 { return nil, ErrReadWrongNum } var buf = make([]byte, n) var err = b.Read(buf) return buf, err }`,
 }
 
+var scratchRe = regexp.MustCompile(`\[(1[0-9]|[2-9][0-9])\]byte`)
+
 var limitRe = regexp.MustCompile(`if (n|size) (>=|<=|==|!=|>|<) limit \{`)
 
 type srcs struct {
@@ -103,6 +105,10 @@ func (s srcs) same(stream bool, name string) bool {
 		want = expectStream[name]
 	}
 	got := limitRe.ReplaceAllString(s.body(stream, name), "if LIMITCMP {")
+	if strings.HasPrefix(name, "WriteVar") {
+		// any scratch array of at least binary.MaxVarintLen64 bytes behaves alike
+		got = scratchRe.ReplaceAllString(got, "[12]byte")
+	}
 	return want != "" && got == gofacts.Norm(want)
 }
 
